@@ -25,4 +25,13 @@ def obligations(tier):
                       funcs=['botpDT', 'decFromU32'], bound='all MACs of length 20..32, digit=%d' % d))
     obs.append(Ob(name='c03_botpCtrNext', harness='harness/C03/botp_k.c', entry='h_ctrnext', srcs=bo, unwind=10, timeout=120,
                   funcs=['botpCtrNext'], bound='all 2^64 counters'))
+    # G-layer: brng CTR against the standard's algorithm over the uninterpreted cipher
+    B = 'src/crypto/belt/'
+    BLOCK = (B + 'belt_block.c', {'remove': ['beltBlockEncr', 'beltBlockEncr2', 'beltBlockEncr3', 'beltBlockDecr', 'beltBlockDecr2', 'beltBlockDecr3']})
+    pairs = ((32, 0), (8, 0), (8, 4)) if tier == 'quick' else ((0, 0), (1, 0), (31, 1), (32, 0), (32, 32), (33, 0), (40, 0), (5, 40), (5, 27), (64, 8))
+    obs.append(Ob(name='c03_brngCTR_eq_standard', harness='harness/C03/brng_ctr_model.c', instances=[('h_%d_%d' % p, '%d, %d' % p) for p in pairs],
+                  srcs=['src/crypto/brng.c', B + 'belt_hash.c', B + 'belt_compr.c', B + 'belt_lcl.c', B + 'belt_hmac.c', BLOCK] + br,
+                  stub_files=['stubs/belt_block_uf_e.c'], stubs=['belt_block_uf_e'], unwind=140, unwind_rules=[(r'^(belt|brng)\w+Step\w*\.\d+$', 6), (r'^brngBlockInc\.0$', 5)],
+                  timeout=900, mem_gb=16, cbmc_extra=['--max-field-sensitivity-array-size', '1024'], funcs=['brngCTRStart', 'brngCTRStepR', 'brngCTRStepG', 'beltHashStepH', 'beltHashStepG'],
+                  bound='request length pairs %s (concrete), key/iv/buffer contents symbolic' % (list(pairs),)))
     return obs
